@@ -149,4 +149,6 @@ pub fn run(ctx: &mut Ctx) {
             }
         }
     }
+    // typed text reads of temporal columns at their boundaries (shared family, harness/src/temporal.rs)
+    crate::temporal::run(ctx, "read");
 }
